@@ -21,7 +21,9 @@ def run(ctx):
         what_oracle="a storage fault lost or corrupted the member (state changed on error, retry fails, or stored history differs from the fault-free run)",
         assumptions=["a storage write that succeeded before a later call failed is an external effect: the member's pending-insert list is compared together with the storage (each epoch stored or pending, never both)",
                      "faults are transient single-call failures; crash inside a provider is not modelled"],
-        nontrivial=lambda r, kv: int(kv.get("cases", "0")))
+        nontrivial=lambda r, kv: int(kv.get("cases", "0")),
+        # the history generator's own C15 oracle (write_to_storage never fails without an injected fault)
+        also=[(["hist", "--histories", "20" if ctx.tier != "thorough" else "200", "--sqlite", "1", "--focus", "C15"], None, "hist")])
 
 
 def replay(ctx, path):
